@@ -77,6 +77,10 @@ def harness(typ, src, origin, budget):
             progs[r], build_err[r] = None, ex
 
     has = "has(" in src
+    import re as _re
+    # features that known findings are keyed on: a protobuf message literal `Name{...}`, a non-standard extension macro
+    feat = {"has": has, "msg_literal": bool(_re.search(r"[A-Za-z_][\w.]*\s*\{", src)),
+            "ext_macro": next((m for m in ("min", "reduce") if f".{m}(" in src), "")}
 
     def run(vals):
         if progs["interp"] is None:
@@ -87,20 +91,20 @@ def harness(typ, src, origin, budget):
             if ki == "value":
                 return [Ob(f"C03/{lab}/construction", z3.BoolVal(False),
                            note=f"compiled runner failed at program construction ({type(build_err['compiled']).__name__}) "
-                                f"for an expression the interpreter evaluates")]
+                                f"for an expression the interpreter evaluates", tags={**feat, "exc": type(build_err["compiled"]).__name__})]
             return [Ob(f"C03/{lab}/construction", z3.BoolVal(True))]
         kc, vc = common.outcome(lambda: progs["compiled"].evaluate(build(vals)))
         if ki == "escape" and kc == "escape":
             return [Ob(f"C03/{lab}/kind", z3.BoolVal(True), note="both escape with a Python exception (C04's subject)")]
         if ki != kc:
             return [Ob(f"C03/{lab}/kind", z3.BoolVal(False), note=f"interp: {ki} {_short(vi)}; compiled: {kc} {_short(vc)}",
-                       tags={"has": has, "interp": ki, "compiled": kc})]
+                       tags={**feat, "interp": ki, "compiled": kc})]
         if ki != "value":
             return [Ob(f"C03/{lab}/kind", z3.BoolVal(True))]
-        obs = [Ob(f"C03/{lab}/value", skel.equal_term(vi, vc), note="equal value under both runners")]
+        obs = [Ob(f"C03/{lab}/value", skel.equal_term(vi, vc), note="equal value under both runners", tags=dict(feat))]
         ci, cc = common.value_class(vi), common.value_class(vc)
         obs.append(Ob(f"C03/{lab}/class", z3.BoolVal(ci == cc), note=f"interp class {ci}, compiled class {cc}",
-                      tags={"has": has, "interp": ci, "compiled": cc}))
+                      tags={**feat, "interp": ci, "compiled": cc}))
         return obs
 
     def witness(vals):
